@@ -16,6 +16,7 @@ import (
 	"pgregory.net/rapid"
 	"verif/harness/lib/refbench"
 	"verif/harness/lib/refexpr"
+	"verif/harness/lib/refproj"
 	"verif/harness/lib/vcase"
 )
 
@@ -291,6 +292,56 @@ func Check(c Case) (v vcase.Verdict) {
 				v.Failf("name %q config %v: projection %s: field %q = %q, reference %q", name, cfgRef, strings.Join(qs, psep), f.Name, got, want[f.Name])
 				return
 			}
+		}
+	}
+	// .fullname next to two or three sub-name keys of one expression: each key keeps its own
+	// value, and .fullname is the name without exactly the parts of those keys
+	{
+		var sub []string
+		for k := range want {
+			if strings.HasPrefix(k, "/") {
+				sub = append(sub, k)
+			}
+		}
+		sort.Strings(sub)
+		if len(sub) >= 2 {
+			rot := ((c.Sep % len(sub)) + len(sub)) % len(sub)
+			sub = append(sub[rot:], sub[:rot]...)
+			if len(sub) > 3 {
+				sub = sub[:3]
+			}
+			expr := refproj.Expr{{Key: ".fullname"}}
+			qs := []string{strconv.Quote(".fullname")}
+			if c.Sep%2 == 1 {
+				expr, qs = nil, nil
+			}
+			for _, k := range sub {
+				expr = append(expr, refproj.FieldSpec{Key: k})
+				qs = append(qs, strconv.Quote(k))
+			}
+			if c.Sep%2 == 1 {
+				expr = append(expr, refproj.FieldSpec{Key: ".fullname"})
+				qs = append(qs, strconv.Quote(".fullname"))
+			}
+			var pp benchproc.ProjectionParser
+			proj, err := pp.Parse(strings.Join(qs, ","), nil)
+			if err != nil {
+				v.Failf("Parse(%s): %v", strings.Join(qs, ","), err)
+				return
+			}
+			key := proj.Project(res)
+			wantFull := refproj.NewCtx(expr).RemainderName(name)
+			for _, f := range proj.Fields() {
+				w := want[f.Name]
+				if f.Name == ".fullname" {
+					w = wantFull
+				}
+				if got := key.Get(f); got != w {
+					v.Failf("name %q: projection %s: field %q = %q, reference %q", name, strings.Join(qs, ","), f.Name, got, w)
+					return
+				}
+			}
+			v.Label("fullname_beside_2+_subname_keys")
 		}
 	}
 	// .fullname next to plain (file configuration) keys in the projections of one
